@@ -136,6 +136,10 @@ def judgeC02 (arg impl : String) : String :=
     let exps := chans.map fun (id, root) => (id, Timeline.expected r.song r.platformSpec root)
     if exps.any (fun (_, e) => match e with | .error _ => true | .ok _ => false) then
       if impl.startsWith "err:" then "ok" else "skip"   -- acceptance of invalid songs is C04's subject
+    else if r.data.platform.any (fun p => p.2.isNone) then
+      -- a platform command whose text is malformed (empty, missing or out-of-range argument) is an input
+      -- error when it is used: such a song is outside the encodable domain
+      if impl == "err:platformBad" then "ok" else "skip"
     else if impl.startsWith "err:" ∨ impl.startsWith "exc:" then
       s!"fail valid encodable song rejected: {impl}"
     else
